@@ -33,7 +33,7 @@ PH = {'g': 1, 'l': 2, 's': 3, 'L': 4, 'S': 5}
 COEFS = [F(1, 2), F(1), F(2), F(3, 2), F(1, 4), F(3)]
 XS = [F(1, 2), F(1, 4), F(1, 8), F(3, 4), F(1), F(0), F(3, 8)]
 KS_MUL = [F(2), F(1, 2), F(1, 4), F(3), F(-1), F(3, 2)]
-KS_DIV = [F(2), F(4), F(1, 2), F(8), F(3), F(0)]
+KS_DIV = [F(2), F(4), F(1, 2), F(8), F(1, 4), F(0)]   # 1./k exact, so conversions stay dyadic
 
 def gen_rxn(rng, phases, reactant):
     e = env()
@@ -182,6 +182,18 @@ def resolved_only(store, op):
         return [name, i, None if op[2] is None else resolve_reactant(store[i], op[2]), op[3]]
     return [name, i] + list(op[2:])
 
+def degenerate(store, rop):
+    """a (+/-) b with X_a (+/-) X_b == 0: the result (0/0 stoichiometry) depends on float rounding of the operands'
+    stoichiometry, which the exact model does not represent; such operations are left out on both sides."""
+    if rop[0] in ('add', 'sub', 'iadd', 'isub'):
+        a, b = store[rop[1]], store[rop[2]]
+        sgn = 1 if rop[0] in ('add', 'iadd') else -1
+        return bool(b.has_reaction()) and a.X + sgn * b.X == 0
+    return False
+
+def normalised(r):
+    return abs(float(np.asarray(r._stoichiometry.to_array(), float).reshape(-1)[flat_ridx(r)]) + 1) < 1e-12
+
 def run_impl(case):
     e = env()
     objs = build(case)
@@ -203,6 +215,9 @@ def run_impl(case):
     oks, resolved, all_new = [], [], True
     for op in case['ops']:
         res_op = resolved_only(store, op)
+        if degenerate(store, res_op):
+            out.setdefault('skipped', []).append(res_op)
+            continue
         try:
             _, r = apply_op(store, op)
             oks.append(True)
@@ -279,10 +294,12 @@ def nontrivial(case, out):
 
 def classify(case, out):
     ks = ['kind:' + case['kind'], 'phases:' + (''.join(case['phases']) or 'none')]
-    for o, ok in zip(case['ops'], out.get('oks', [True] * len(case['ops']))):
+    for o, ok in zip(out.get('ops', []), out.get('oks', [])):
         ks.append(f'op:{o[0]}:{"ok" if ok else "raise"}')
     for e in out.get('errors', []):
         ks.append('error:' + e)
+    for o in out.get('skipped', []):
+        ks.append('skipped-degenerate:' + o[0])
     return ks
 
 # ------------------------------------------------------------------ direct oracle (search step)
@@ -313,6 +330,7 @@ def oracle(case):
     store = list(objs)
     for op in case['ops']:
         name = op[0]; n = len(store); i = op[1] % n
+        if degenerate(store, resolved_only(store, op)): continue
         before = [state(r) for r in store]
         a = store[i]
         try:
@@ -349,7 +367,7 @@ def oracle(case):
         if any(r is x for x in store): return f'{name}: did not return a new object'
         if name in ('add', 'sub'):
             b = store[op[2] % n]
-            if b.has_reaction():
+            if b.has_reaction() and normalised(a) and normalised(b):
                 bb = b.copy(a.basis)
                 sgn = 1 if name == 'add' else -1
                 if a.X + sgn * bb.X != 0:
